@@ -10,6 +10,7 @@
 #![allow(clippy::needless_late_init)]
 #![allow(clippy::redundant_guards)]
 #![allow(non_snake_case)]
+#![allow(unexpected_cfgs)]
 
 mod bid128;
 mod bid128_2_str_tables;
